@@ -200,6 +200,31 @@ def check_path(case, ctx):
                 raise Violation("C01/path/raised", "second derive_path with the same list raised %r" % (again,))
             compare_node("C01/derive_path-list-reused", "derive_path(%s) with a list object used before" % R.fmt_path(path),
                          again, refs[-1], p["testnet"])
+        # one list object whose elements are replaced in place between two calls on the SAME root (a loop over accounts)
+        if len(path) >= 1:
+            r2 = dict(impl_parents(p))[form]
+            lst = list(path)
+            lst[-1] = (lst[-1] + 1) % 2 ** 32 if lst[-1] != 2 ** 32 - 1 else 0
+            call(r2.derive_path, lst)
+            lst[-1] = path[-1]
+            st_, again = call(r2.derive_path, lst)
+            if st_ == "exc":
+                raise Violation("C01/path/raised", "derive_path after an in-place edit of the caller's list raised %r" % (again,))
+            compare_node("C01/derive_path-list-edited-in-place", "derive_path(%s) on a root that was first asked, with the same list "
+                         "object, for another last index" % R.fmt_path(path), again, refs[-1], p["testnet"])
+        # duplicates of a derived node (copy, deepcopy, pickle round trip) print what the original prints
+        if path and form == "key32":
+            import copy
+            import pickle
+            orig = dict(impl_parents(p))[form].derive_path(list(path))
+            for how, dup in (("copy.copy", copy.copy), ("copy.deepcopy", copy.deepcopy),
+                             ("pickle round trip", lambda x: pickle.loads(pickle.dumps(x)))):
+                st_, d = call(dup, orig)
+                if st_ == "exc":
+                    ctx.count("node-not-copyable[%s] (not judged)" % how)
+                    continue
+                compare_node("C01/duplicate[%s]" % how.split(".")[-1].split(" ")[0], "%s of the node at %s" % (how, R.fmt_path(path)),
+                             d, refs[-1], p["testnet"])
         # derive_path on a fresh root gives the same end node
         fresh = dict(impl_parents(p))[form]
         st_, end = call(fresh.derive_path, index_list=tuple(path)) if form == "key33" else call(fresh.derive_path, list(path))
